@@ -134,6 +134,7 @@ Mismatch(s, e) ==
         nc == Len(s.vec.colid)
         support == { r \in 1..s.vec.nr : s.vec.src[r] # 0 }
     IN IF ~o.intact THEN "inputs-modified"       \* the matrices handed over (csr / csc / coo) must come back unchanged
+       ELSE IF ~o.kept THEN "earlier-result-modified"   \* arrays handed out by earlier calls on the object: bitwise unchanged
        ELSE IF o.exc # "" THEN (IF s.pc = "raised" /\ s.exc = o.exc THEN ""
                           ELSE IF s.pc = "raised" THEN "exception-class" ELSE "unexpected-exception")
        ELSE IF s.pc = "done" /\ s.unspec
